@@ -938,5 +938,8 @@ func (t *Table) DelChain(name string) {
 	}
 }
 
+// HasLoop reports whether the chain graph contains a jump/goto cycle (the kernel never holds one).
+func (t *Table) HasLoop() bool { return hasLoop(t) }
+
 // Refs returns how many rules reference each user chain.
 func (t *Table) Refs() map[string]int { return refCounts(t) }
